@@ -179,20 +179,27 @@ impl<U: TimeUnitTrait> DateTime<U> {
     where
         Self: From<CrDateTime<Utc>>,
     {
+        // a well-formed date that the unit cannot represent is an error, not NaT
+        let in_range = |dt: Self| {
+            if dt.is_nat() {
+                tbail!(ParseError:"datetime out of range for this time unit: {}", s)
+            }
+            Ok(dt)
+        };
         if let Some(fmt) = fmt {
             if let Ok(cr_dt) = NaiveDateTime::parse_from_str(s, fmt) {
-                Ok(cr_dt.into())
+                in_range(cr_dt.into())
             } else if let Ok(cr_date) = NaiveDate::parse_from_str(s, fmt) {
-                Ok(cr_date.into())
+                in_range(cr_date.into())
             } else {
                 tbail!(ParseError:"Failed to parse datetime from string: {}", s)
             }
         } else {
             for fmt in TIME_RULE_VEC.iter() {
                 if let Ok(cr_dt) = NaiveDateTime::parse_from_str(s, fmt) {
-                    return Ok(cr_dt.into());
+                    return in_range(cr_dt.into());
                 } else if let Ok(cr_date) = NaiveDate::parse_from_str(s, fmt) {
-                    return Ok(cr_date.into());
+                    return in_range(cr_date.into());
                 }
             }
             tbail!(ParseError:"Failed to parse datetime from string: {}", s)
